@@ -215,7 +215,16 @@ class Universe:
             try:
                 res[v] = self.folder.fold(e)
             except F.Unfoldable as u:
-                raise ModelError(rule, "%s: not a constant for variant %s (%s)" % (what, v, u.what), u.sp or body["span"])
+                # code rather than an expression (e.g. a scan of a constant table by discriminant): the body is
+                # constant-evaluated for this variant, as the compiler would evaluate the `const fn`
+                self.folder.env = {}
+                from . import ctfe
+                try:
+                    res[v] = ctfe.Ctfe(self, lambda path, variant: self._discr.get((path, variant))).call_body(body, [("variant", enum_path, v)])
+                except ctfe.FoldPanic as pn:
+                    raise ModelError(rule, "%s: panics for variant %s (%s)" % (what, v, pn), u.sp or body["span"])
+                except ctfe.CannotFold as cf:
+                    raise ModelError(rule, "%s: not a constant for variant %s (%s; %s)" % (what, v, u.what, cf.what), cf.sp or u.sp or body["span"])
             finally:
                 self.folder.env = {}
         return res
